@@ -204,9 +204,10 @@ OnStop == /\ IsEvent("OnStop")
           /\ Imp("C05", Ev.cause \in causes)             \* the first cause
           /\ onstop' = onstop + 1
           /\ UNCHANGED <<ops, idof, live, got, idres, stopped, pend, causes, sendBad, oncancel, cbrun, closeOpen, closeDone, rdDone>>
-CbStart == /\ IsEvent("CbStart") /\ cbrun' = cbrun \cup {Ev.id}
+\* (aware: the handler watches its context - it returns when the context ends, whether the scenario releases it or not)
+CbStart == /\ IsEvent("CbStart") /\ cbrun' = cbrun \cup {[id |-> Ev.id, aware |-> Ev.aware]}
            /\ UNCHANGED <<ops, idof, live, got, idres, stopped, pend, causes, sendBad, oncancel, onstop, closeOpen, closeDone, rdDone>>
-CbExit == /\ IsEvent("CbExit") /\ cbrun' = cbrun \ {Ev.id}
+CbExit == /\ IsEvent("CbExit") /\ cbrun' = {x \in cbrun : x.id # Ev.id}
           /\ UNCHANGED <<ops, idof, live, got, idres, stopped, pend, causes, sendBad, oncancel, onstop, closeOpen, closeDone, rdDone>>
 
 (***************************************************************************)
@@ -222,6 +223,9 @@ Quiescent ==
   \* C04: an operation all of whose requests the peer has answered (after they were sent) completes - with those answers
   /\ Imp("C04", \A o \in DOMAIN ops : (ops[o].st = "open" /\ ~stopped /\ CallIds(o) # {}
                                         /\ \A x \in CallIds(o) : x \in DOMAIN got /\ \E q \in got[x] : ~q.pre) => FALSE)
+  \* C05: once the client has stopped - by Close as by anything else - the context of every callback handler has ended:
+  \* a handler that waits for just that is not left waiting (and Close, which waits for the handlers, not for ever)
+  /\ Imp("C05", stopped => \A x \in cbrun : ~x.aware)
   \* once Recv has failed (end of stream, a closing-class error, any other error, an undecodable record) the client has stopped
   /\ Imp("C05", rdDone => stopped)
   \* (OnStop has no deadline short of Close returning: Close runs it after waiting for the reader and callbacks)
